@@ -24,7 +24,9 @@ RULE = ('case = rig forest (0..4 rigs, 1..4 members, nesting 0..3, members senso
         'chains of depth 4..12, explicit recover inputs) on which only model/code agreement is required; plus a '
         'near-identity stream (member poses, sub-rig mounts and rig poses that are exactly the identity / within 1e-6 of it / '
         'inside the tolerance of PoseTransform.__eq__ (1e-5 on t, 1e-2 per quaternion component) but not the identity / just '
-        'outside it, next to translations of 100..1000); plus histories on ONE Rigs and ONE Trajectories object: 4..14 steps '
+        'outside it, next to translations of 100..1000); plus a print-precision stream (quaternions of member poses, sub-rig '
+        'mounts and rig poses that are unit only to 6 / 7 / 8 decimals, to float32 or to 2^-20..2^-26: norm^2 = 1 +- 1e-8..1e-6, '
+        'with world translations up to 1e6); plus histories on ONE Rigs and ONE Trajectories object: 4..14 steps '
         'of rigs_remove / rigs_remove_inplace / rigs_recover / rigs_recover_inplace interleaved with edits of the rigs through '
         'rigs[r, d] = p, rigs[r] = {..}, rigs[r][d] = p, rigs[r].update, del rigs[r][d], rigs[r].pop, del rigs[r], pop, '
         'popitem, update, |=, setdefault, clear (some raising KeyError) and refills of the trajectories; every call is judged '
@@ -506,6 +508,63 @@ def _gen_near_identity_case(rng):
             'cls': 'near-identity:' + cls + '/m=' + mk + ('/full' if full else '')}
 
 
+# ------------------------------------------------------------------ quaternions that are unit to PRINT precision
+# A unit quaternion read back from rigs.txt / trajectories.txt, or stored as float32, has norm^2 = 1 +- 1e-8..1e-6: not unit
+# for the code (its unit branch is |norm^2 - 1| < 1e-14), so the rotation matrix must be divided by norm^2.  Skipping that
+# scales R t by norm^2: 1e-7 relative on every translation, far above the property's 1e-9.
+_NICE_ANGLES = [10, 15, 30, 45, 60, 90, 120, 135, 170, 180, 1, 0.5]
+
+
+def _print_quat(rng):
+    import math
+    import struct
+    if rng.random() < 0.3:                                    # a 'nice' rotation about an axis, as typed in a file
+        a = math.radians(rng.choice(_NICE_ANGLES)) / 2
+        ax = rng.choice([[1, 0, 0], [0, 1, 0], [0, 0, 1], [1, 1, 0], [1, 1, 1], [0, 3, -4]])
+        n = math.sqrt(sum(x * x for x in ax))
+        q = [math.cos(a)] + [math.sin(a) * x / n for x in ax]
+    else:
+        q = [rng.gauss(0, 1) for _ in range(4)]
+        n = math.sqrt(sum(x * x for x in q)) or 1.0
+        q = [x / n for x in q]
+    how = rng.choice(['dec7', 'dec7', 'dec7', 'dec6', 'dec8', 'f32', 'f32', 'dy23', 'dy23', 'dy20', 'dy26'])
+    if how.startswith('dec'):
+        q = [round(x, int(how[3:])) for x in q]
+    elif how == 'f32':
+        q = [struct.unpack('f', struct.pack('f', x))[0] for x in q]
+    else:
+        k = 2 ** int(how[2:])
+        q = [round(x * k) / k for x in q]
+    if rng.random() < 0.25:
+        q = [-x for x in q]
+    return [float(x) for x in q], how
+
+
+def _gen_print_precision_case(rng):
+    big = rng.choice([10, 1000, 10 ** 4, 10 ** 5, 10 ** 6])     # vehicle up to 1000 km from the origin
+    p_q = rng.choice([0.5, 0.8, 1.0])
+
+    def trans(bound):
+        if rng.random() < 0.5:
+            return [float(rng.randint(-bound, bound)) for _ in range(3)]
+        return [_short(rng, bound, 4) for _ in range(3)]
+
+    def quat():
+        return _print_quat(rng)[0] if rng.random() < p_q else _rand_quat(rng, False)
+
+    def member_pose():
+        return quat() + trans(rng.choice([1, 10, 10, 100]))
+
+    def world_pose():
+        return quat() + trans(big)
+    rigs, free = _gen_forest(rng, rng.choice([1, 1, 2, 2, 3]), rng.choice([1, 2, 3]), rng.randint(0, 1), False, member_pose)
+    cls = rng.choice(['roots', 'roots', 'mixed'])
+    traj = _gen_traj(rng, rigs, free, rng.choice([1, 2, 2, 3]), cls, False, world_pose)
+    mk = rng.choice(['none', 'none', 'valid'])
+    masters = _gen_masters(rng, rigs, traj, mk)
+    return {'rigs': rigs, 'traj': traj, 'masters': masters, 'rec_in': None, 'cls': 'print-precision:' + cls + '/m=' + mk}
+
+
 # ------------------------------------------------------------------ histories on ONE Rigs and ONE Trajectories object
 _EDIT_PATHS = ['inner_set'] * 4 + ['inner_del'] * 3 + ['inner_pop', 'inner_update', 'pair_set', 'rig_set', 'rig_del', 'pop',
                                                          'popitem', 'update', 'update', 'update', 'ior', 'setdefault', 'clear']
@@ -726,6 +785,8 @@ def gen_cases(rng, tier):
         cases.append(_gen_near_identity_case(rng))
     for _ in range(40 if tier == 'quick' else 320):
         cases.append(_gen_history(rng))
+    for _ in range(32 if tier == 'quick' else 280):
+        cases.append(_gen_print_precision_case(rng))
     return cases
 
 
